@@ -59,6 +59,7 @@ _NONSTR = {
     'False': False, "b''": b'', "b'123'": b'123', '[]': [], "['1', '2']": ['1', '2'],
     "('1', '2', '3')": ('1', '2', '3'), '{}': {}, "{'a': 1}": {'a': 1}, 'range(3)': range(3),
     '10**30': 10 ** 30, 'object()': object(),
+    "b'\\x80'": b'\x80', "b'\\xff\\xfe1'": b'\xff\xfe1', "bytearray(b'123')": bytearray(b'123'),
 }
 
 
@@ -80,7 +81,7 @@ def dec(x):
     if isinstance(x, dict) and 'py' in x:
         if x['py'] in _NONSTR:
             return _NONSTR[x['py']]
-        return eval(x['py'], {'__builtins__': {'range': range, 'object': object, 'True': True, 'False': False, 'None': None}})
+        return eval(x['py'], {'__builtins__': {'range': range, 'object': object, 'True': True, 'False': False, 'None': None, 'bytearray': bytearray}})
     return x
 
 
